@@ -93,8 +93,13 @@ func (p *postprocessor) worker(workerID string) {
 			return
 		case <-controlChans.PauseCh:
 			logger.Debug("received pause event")
-			controlChans.ResumeCh <- struct{}{}
-			logger.Debug("received resume event")
+			select {
+			case controlChans.ResumeCh <- struct{}{}:
+				logger.Debug("received resume event")
+			case <-p.ctx.Done():
+				logger.Debug("shutting down while paused")
+				return
+			}
 		case seed, ok := <-p.inputCh:
 			if ok {
 				logger.Debug("received seed", "seed", seed.GetShortID())
